@@ -100,3 +100,46 @@ func trunc(s string, n int) string {
 	}
 	return s
 }
+
+// violations: a known finding is reported with at most 2 witnesses per (id, what), so that the
+// bounded violation list of the summary keeps room for anything that is NOT a known finding.
+type violations struct {
+	c    *hc.Ctx
+	seen map[string]int
+}
+
+func newViolations(c *hc.Ctx) *violations { return &violations{c: c, seen: map[string]int{}} }
+
+func (v *violations) add(x hc.Violation) {
+	if x.KnownFinding != "" {
+		k := x.KnownFinding + "|" + x.What
+		v.seen[k]++
+		v.c.Count("known finding " + x.KnownFinding + " witnessed")
+		if v.seen[k] > 2 {
+			return
+		}
+	}
+	v.c.Violate(x)
+}
+
+// bufferedCases collects cases and emits them in exactly `shards` shards (one per core).
+type bufferedCases struct {
+	terms []string
+	descs []any
+}
+
+func (b *bufferedCases) add(term string, desc any) {
+	b.terms = append(b.terms, term)
+	b.descs = append(b.descs, desc)
+}
+
+func (b *bufferedCases) flush(c *hc.Ctx, importPath, file string, shards int) {
+	per := (len(b.terms) + shards - 1) / shards
+	if per < 1 {
+		per = 1
+	}
+	c.CorrInit(importPath, file, per)
+	for i := range b.terms {
+		c.Case(b.terms[i], b.descs[i])
+	}
+}
